@@ -42,6 +42,8 @@ def build(level, specs):
         p = InMemoryPartition(dd)
     else:
         p = InMemoryPartition(data)
+    if own.get("peek"):  # the function looks at the keys it has staged so far, before it declares the parent
+        p.list_keys()
     if level > 0:
         p._merge_parent = build(level - 1, specs) if specs[level - 1].get("unstored") else part(level - 1, specs)
     return p
